@@ -660,6 +660,7 @@ func runC14(c *Config, r *Report) {
 			}
 		}
 		r.Info["constants_rebound_from_host_by_fixStdlib"] = sortedKeys(rebinds)
+		c14R8(ic, r, ovs)
 	}
 	dirs := []string{}
 	for _, p := range stdlibPatterns {
@@ -1379,4 +1380,84 @@ func isBuiltinCall(info *types.Info, c *ast.CallExpr, name string) bool {
 	}
 	b, ok := info.Uses[id].(*types.Builtin)
 	return ok && b.Name() == name
+}
+
+func init() {
+	ruleText["R14.8"] = "every constant the per-interpreter re-binding (fixStdlib) takes from the host denotes the name it is stored under: the host constant of the same package and name, or one of equal value"
+}
+
+// c14R8: the repaired bindings of platform-dependent constants (D10, D19) are part of what a
+// script sees under a name; a re-binding from another constant rebinds the name behind R14.1
+// (round-5 seed: filepath.ListSeparator rebound from os.PathSeparator through a shared local).
+func c14R8(ic *IC, r *Report, ovs []override) {
+	info := ic.Info
+	// namesake lookup through the import graph of package interp
+	findPkg := func(path string) *types.Package {
+		seen := map[*types.Package]bool{}
+		var walk func(p *types.Package) *types.Package
+		walk = func(p *types.Package) *types.Package {
+			if p == nil || seen[p] {
+				return nil
+			}
+			seen[p] = true
+			if p.Path() == path {
+				return p
+			}
+			for _, q := range p.Imports() {
+				if f := walk(q); f != nil {
+					return f
+				}
+			}
+			return nil
+		}
+		return walk(ic.Pk.Types)
+	}
+	n := 0
+	for _, o := range ovs {
+		val := o.val
+		if id := identOf(val); id != nil {
+			// a local defined once in the re-binding function
+			obj := info.ObjectOf(id)
+			for _, name := range sortedKeys(ic.F) {
+				fi := ic.F[name]
+				if fi.Decl.Body == nil || fi.Decl.Pos() > id.Pos() || id.Pos() > fi.Decl.End() {
+					continue
+				}
+				ast.Inspect(fi.Decl.Body, func(m ast.Node) bool {
+					if as, ok := m.(*ast.AssignStmt); ok && len(as.Lhs) == len(as.Rhs) {
+						for i, l := range as.Lhs {
+							if lid := identOf(l); lid != nil && info.ObjectOf(lid) == obj {
+								val = as.Rhs[i]
+							}
+						}
+					}
+					return true
+				})
+			}
+		}
+		cst := hostConstRebind(ic, val)
+		if cst == nil || cst.Pkg() == nil {
+			continue
+		}
+		n++
+		ok := cst.Pkg().Path() == o.pkgPath && cst.Name() == o.name
+		detail := ""
+		if !ok {
+			detail = "no constant " + o.pkgPath + "." + o.name + " reachable for comparison"
+			if p := findPkg(o.pkgPath); p != nil {
+				if ns, isC := p.Scope().Lookup(o.name).(*types.Const); isC {
+					if constant.Compare(ns.Val(), token.EQL, cst.Val()) {
+						ok = true
+					} else {
+						detail = o.pkgPath + "." + o.name + " is " + ns.Val().ExactString() + " on the host, " + cst.Pkg().Path() + "." + cst.Name() + " is " + cst.Val().ExactString()
+					}
+				}
+			}
+		}
+		r.Check(ok, "R14.8", "fixStdlib/"+o.pkgPath+"."+o.name+"/rebound-from-its-namesake", ic.pos(o.stmt.Pos()), "re-bound from "+cst.Pkg().Path()+"."+cst.Name(),
+			"the per-interpreter re-binding stores the host constant "+cst.Pkg().Path()+"."+cst.Name()+" under the name "+o.pkgPath+"."+o.name+" ("+detail+"): scripts see another value than the identically named constant of the package")
+	}
+	if n < 5 {
+		r.Errorf("R14.8: only %d host constants re-bound by fixStdlib found", n)
+	}
 }
